@@ -768,9 +768,10 @@ SLICES = [('0:3', slice(0, 3)), ('::2', slice(None, None, 2)), ('int3', 3),
           (':,1:3', (slice(None), slice(1, 3)))]
 
 
-def _observe(rec, g, model, angles, dmid, site, symptom, ctx, has_shift):
+def _observe(rec, g, model, angles, dmid, site, symptom, ctx, has_shift, ref=None):
     """All observables of ``g`` at the 1-d array ``angles`` and ONE detector parameter,
-    compared with the model of the (parent) geometry."""
+    compared with the model of the (parent) geometry, or with ``ref`` (what the same object
+    answered earlier) if given.  Returns the answers."""
     ms = [(float(a),) for a in angles]
     d = tuple(float(x) for x in np.atleast_1d(dmid))
     darg = d[0] if len(d) == 1 else list(d)
@@ -781,7 +782,9 @@ def _observe(rec, g, model, angles, dmid, site, symptom, ctx, has_shift):
            'det_to_src': np.array([model.det_to_src(m, d) for m in ms])}
     if model.beam == 'divergent':
         exp['src_position'] = np.array([model.src(m) for m in ms])
-    good = True
+    if ref is not None:
+        exp = dict((k, v) for k, v in ref.items() if v is not None)
+    answers = {}
     for name in sorted(exp):
         fn = getattr(g, name)
         args = (A.copy(),) if name in ('rotation_matrix', 'det_refpoint', 'src_position') \
@@ -792,16 +795,16 @@ def _observe(rec, g, model, angles, dmid, site, symptom, ctx, has_shift):
         except Exception as e:           # noqa
             rec.fail(site, '%s:raises:%s' % (symptom, type(e).__name__),
                      '%s: %s%s -> %r' % (ctx, name, _fmt(args), e))
-            good = False
+            answers[name] = None
             continue
+        answers[name] = np.array(got, dtype=float, copy=True)
         if not _close(got, exp[name]):
             shp = np.shape(got)
             rec.fail(site, symptom, '%s: %s%s: %s' % (
                 ctx, name, _fmt(args),
                 _worst(got, exp[name]) if shp == exp[name].shape else
                 'shape %s instead of %s' % (shp, exp[name].shape)))
-            good = False
-    return good
+    return answers
 
 
 def check_slicing(rec, g, model, cfg, base, has_shift):
@@ -811,6 +814,10 @@ def check_slicing(rec, g, model, cfg, base, has_shift):
     site = '%s.__getitem__' % base
     lo, hi = ARANGE[cfg['arange']]
     grid = lo + (np.arange(NCELL) + 0.5) * (hi - lo) / NCELL      # midpoints of the 8 cells
+    pmid = np.asarray(g.det_params.mid_pt, dtype=float)
+    quiet = Rec()                   # reference capture only; judged by the checks above
+    parent_before = _observe(quiet, g, model, grid, pmid, site, 'n/a', 'before', has_shift)
+    rec.evals += quiet.evals
     subs = []
     for sname, idx in SLICES:
         if IS3D[cls] and sname == ':,1:3':
@@ -839,17 +846,18 @@ def check_slicing(rec, g, model, cfg, base, has_shift):
                      % (sname, got_angles.tolist(), sname, want.tolist(), part_ok))
             continue
         # "where all other parameters are the same"
-        _observe(rec, sub, model, want, dmid, site, 'slice_differs_from_parent',
-                 'geom[%s]' % sname, has_shift)
-        subs.append((sname, sub, want, dmid))
-    # hidden shared state: earlier slices and the parent must not have moved
-    for sname, sub, want, dmid in subs[:2]:
+        first = _observe(rec, sub, model, want, dmid, site, 'slice_differs_from_parent',
+                         'geom[%s]' % sname, has_shift)
+        subs.append((sname, sub, want, dmid, first))
+    # hidden shared state: earlier slices and the parent must answer what they answered before
+    for sname, sub, want, dmid, first in subs[:2]:
         _observe(rec, sub, model, want, dmid, site, 'earlier_slice_changed_by_later_slicing',
-                 'geom[%s] re-evaluated after %d more slicings' % (sname, len(subs) - 1),
-                 has_shift)
+                 'geom[%s] re-evaluated after %d more slicings, compared with its first answers'
+                 % (sname, len(subs) - 1), has_shift, ref=first)
     if subs:
-        _observe(rec, g, model, grid, np.asarray(g.det_params.mid_pt, dtype=float), site,
-                 'slicing_modifies_parent', 'parent after %d slicings' % len(subs), has_shift)
+        _observe(rec, g, model, grid, pmid, site, 'slicing_modifies_parent',
+                 'parent after %d slicings, compared with its answers before' % len(subs),
+                 has_shift, ref=parent_before)
 
 
 def check_init_vectors(rec, g, model, cfg, site):
